@@ -2372,6 +2372,320 @@ def _worker_ids(chk, rid, drv, D, T, T0):
         chk.ob(rid, "each client gets its own matrix row", ok, add, short(add, 70))
 
 
+# ---- O2.9 / O2.10 the race as the driver starts it, on values ---------------------------------------------------------------------------------------------------
+def _start_up_inputs(c01):
+    """[(name, schedule, hosts)]: the schedules vary where the steps are decided (elements left empty first / in the middle / last / twice in a row, capped and over-committed
+    parallel elements, no element at all), the host lists where the clients are handed out (one host, a host listed more than once - next to itself and around another one -,
+    uneven cores, more cores than clients, more hosts than clients)."""
+    T, P = c01._leaf, c01._par
+
+    def H(*hosts):
+        return [{"host": h, "cores": c} for h, c in hosts]
+
+    one = H(("h0", 2))
+    scheds = [
+        ("[3, 1, 2]", lambda: [T("a", 3), T("b", 1), T("c", 2)]),
+        ("[par(2+3), 2]", lambda: [P("p", [T("a", 2), T("b", 3)]), T("c", 2)]),
+        ("[par(1 x5 on 2 clients), 2]", lambda: [P("p", [T(f"t{i}", 1) for i in range(5)], clients=2), T("c", 2)]),
+        ("[empty, 1]", lambda: [P("p", [], clients=0), T("a", 1)]),
+        ("[2, empty, 3]", lambda: [T("a", 2), P("p", [], clients=0), T("b", 3)]),
+        ("[3, empty]", lambda: [T("a", 3), P("p", [], clients=0)]),
+        ("[1, empty, empty (4 clients), par(1+1), 2]", lambda: [T("a", 1), P("p", [], clients=0), P("q", [], clients=4), P("r", [T("b", 1), T("c", 1)]), T("d", 2)]),
+        ("no element", lambda: []),
+    ]
+    out = [(f"schedule {n}, hosts [h0 x2 cores]", mk(), one) for n, mk in scheds]
+    layouts = [
+        ("[h0 x2 cores, h0 x2 cores] (one host listed twice)", H(("h0", 2), ("h0", 2))),
+        ("[h0 x1 core, h1 x3 cores]", H(("h0", 1), ("h1", 3))),
+        ("[h0 x2 cores, h1 x2 cores, h0 x2 cores] (one host listed first and last)", H(("h0", 2), ("h1", 2), ("h0", 2))),
+        ("[h0 x8 cores]", H(("h0", 8))),
+        ("[h0, h1, h2, h3 x2 cores each]", H(("h0", 2), ("h1", 2), ("h2", 2), ("h3", 2))),
+    ]
+    for hn, hosts in layouts:
+        out.append((f"schedule [par(2+3), 1] (5 clients), hosts {hn}", [P("p", [T("a", 2), T("b", 3)]), T("c", 1)], hosts))
+        out.append((f"schedule [3, empty, 2] (3 clients), hosts {hn}", [T("a", 3), P("p", [], clients=0), T("b", 2)], hosts))
+    return out
+
+
+class _Outer:
+    """the variables of the activation a nested function was defined in (what its free variables refer to)"""
+
+    def __init__(self, fn, env):
+        self.fn, self.env = fn, env
+
+
+def _closing_machine(c01):
+    """The abstract machine of rules.C01 with closures for nested `def`s: that machine binds a nested function as its bare node and calls it with its parameters only, so every
+    free variable of the nested function (`self`, locals of the enclosing method) silently is a value without a representative - the calls it makes on them are lost. Here a
+    nested function is bound together with the variables of the activation that defines it; they are visible (not assignable) in its body when it is called. The outer
+    variables travel in the `cls` slot of call_function (which ends up as `__class__` of the new activation) and are unpacked by the first block of that activation."""
+
+    class Machine(c01._Machine):
+        def stmt(self, s, env):
+            if isinstance(s, ast.FunctionDef):
+                env[s.name] = _Outer(s, env)
+                return None
+            return super().stmt(s, env)
+
+        def apply(self, callee, args, kwargs, e=None):
+            if isinstance(callee, _Outer):
+                return self.call_function(callee.fn, args, kwargs, callee)
+            return super().apply(callee, args, kwargs, e)
+
+        def block(self, stmts, env):
+            outer = env.get("__class__")
+            if isinstance(outer, _Outer):
+                env["__class__"] = outer.env.get("__class__")
+                if isinstance(env["__class__"], _Outer):
+                    env["__class__"] = None
+                for k_, v_ in outer.env.items():
+                    env.setdefault(k_, v_)
+            return super().block(stmts, env)
+
+    return Machine
+
+
+class _StartUpSim(_Sim):
+    """Driver.start_benchmark - with whatever it delegates to - interpreted by the abstract machine of rules.C01 on a model driver (its own constructor; the driver's actor is a
+    recording stand-in; the matrix builder class is constructed with the model schedule wherever the routine constructs it; the worker assignment function is interpreted with
+    the model hosts in the place of its non-integer argument; conditions on the configuration are taken as False). Facts read off the model driver afterwards and off the
+    recorded create_client(...) / start_worker(...) calls:
+       steps       walking the join points of the matrix (the step counter starts at the value start-up leaves it with and moves on by one per join point), the driver's
+                   completion predicate over the step counter is False after every join point but the last one of the rows and True after the last one
+       entries     the per-step entries the driver keeps are, step by step, the sets of the tasks between two consecutive join points of the matrix (one entry per step)
+       all_ids     the client ids of the row views the workers are started with are 0 .. n-1 (n = rows of the matrix), each exactly once
+       contiguous  the clients of one worker are a contiguous range of ids
+       per_core    a worker is created on one of the load driver hosts, and on no host more workers than the host (all of its entries in the list) has cores"""
+
+    FACTS = ("steps", "entries", "all_ids", "contiguous", "per_core")
+    what, inputs = "Driver.start_benchmark", "(schedule, load driver hosts) inputs"
+
+    def __init__(self, drv):
+        super().__init__()
+        self.drv = drv
+
+    def _roles(self, c01):
+        drv = self.drv
+        D = drv.cls("Driver")
+        dm = drv.methods(D)
+        if "start_benchmark" not in dm:
+            raise AnchorMissing("Driver.start_benchmark")
+        # the step counter: an attribute advanced by one that starts before the first step (-1: the artificial initial join point), as O2.1 locates it
+        counters = {n.target.attr for m_ in dm.values() for n in walk_body(m_) if isinstance(n, ast.AugAssign) and isinstance(n.op, ast.Add) and is_self_attr(n.target) and source.is_const(n.value, 1)}
+        counters &= {t.attr for m_ in dm.values() for n in walk_body(m_) if isinstance(n, ast.Assign) and u(n.value) == "-1" for t in n.targets if is_self_attr(t)}
+        pred = why = None
+        if len(counters) != 1:
+            why = f"the driver's step counter (an attribute initialised to -1 and advanced by `+= 1`) is not recognised (candidates {sorted(counters)})"
+        else:
+            counter = next(iter(counters))
+            # the completion predicate: a parameterless method of the driver that reads the step counter, returns a value on every path, stores nothing - and is asked by the
+            # method that advances the counter (else: by any other method of the driver)
+            advancing = [m_ for m_ in dm.values() if any(isinstance(n, ast.AugAssign) and is_self_attr(n.target, counter) for n in walk_body(m_))]
+            preds = []
+            for m_ in dm.values():
+                rets = [n for n in walk_body(m_) if isinstance(n, ast.Return)]
+                stores = [n for n in walk_body(m_) if is_self_attr(n) and isinstance(n.ctx, (ast.Store, ast.Del))]
+                if params_of(m_) == ["self"] and rets and all(r.value is not None for r in rets) and not stores \
+                        and any(is_self_attr(n, counter) and isinstance(n.ctx, ast.Load) for n in walk_body(m_)):
+                    preds.append(m_)
+
+            def asked_by(methods):
+                return [m_ for m_ in preds if any(is_self_attr(n, m_.name) and isinstance(n.ctx, ast.Load) for a_ in methods if a_ is not m_ for n in walk_body(a_))]
+
+            cands = asked_by(advancing) or asked_by(dm.values())  # (the counter may be advanced by a helper of the method that asks)
+            if len(cands) == 1:
+                pred = cands[0]
+            else:
+                why = f"the driver's completion predicate (ONE parameterless method over the step counter `{counter}` that the method advancing the counter asks) is not recognised " \
+                      f"(candidates {sorted(m_.name for m_ in cands)})"
+        return D, (next(iter(counters)) if len(counters) == 1 else None), pred, why
+
+    def _compute(self):
+        import importlib
+
+        try:
+            c01 = importlib.import_module("rules.C01")
+            machine, model, opaque, is_prop = _closing_machine(c01), c01._Obj, c01._Opaque, c01._is_property
+            soft = (c01._Cannot, c01._Raised, RecursionError)
+            cases = _start_up_inputs(c01)
+            A, builder, builder_is_prop = c01._matrix_builder(self.drv)
+            closure = c01._closure_in_module
+        except AnchorMissing:
+            raise
+        except Exception as x:  # noqa: BLE001 — rules/C01.py is owned (and changed) elsewhere: whatever keeps it from loading makes this evaluation unavailable, not the check fail
+            raise me.CannotEval(f"the abstract machine of rules.C01 is not available ({type(x).__name__}: {x})")
+        drv = self.drv
+        D, counter, pred, pred_why = self._roles(c01)
+        CA, JP, TA = drv.cls("ClientAllocations"), drv.cls("JoinPoint"), drv.cls("TaskAllocation")
+        reader = drv.methods(CA).get("tasks")
+        cwa = [f_ for f_ in drv.functions() if f_.name == "calculate_worker_assignments"]
+        ta_ctor = _ctor(drv, TA)
+        if reader is None or len(cwa) != 1 or ta_ctor is None or len(params_of(ta_ctor)) < 2:
+            raise AnchorMissing("ClientAllocations.tasks / calculate_worker_assignments / the constructor of TaskAllocation")
+        task_p = params_of(ta_ctor)[1]
+        start = drv.methods(D)["start_benchmark"]
+        own = {t_.attr for f_ in closure(drv, start) for n in walk_body(f_) if isinstance(n, (ast.Assign, ast.AnnAssign, ast.AugAssign))
+               for t_ in (n.targets if isinstance(n, ast.Assign) else [n.target]) if is_self_attr(t_)}
+        f = dict.fromkeys(self.FACTS)
+        if pred is None:
+            f["steps"] = _NotEvaluated(pred_why)
+
+        def fail(k, txt):
+            if f[k] is None:
+                f[k] = txt
+
+        def is_a(v, cls):
+            return isinstance(v, model) and v.cls is cls
+
+        for name, sched, hosts in cases:
+            created, started = [], []
+
+            def create_client(*a, **k):
+                created.append(model(None, _label=f"worker #{len(created)}", args=list(a) + list(k.values())))
+                return created[-1]
+
+            def start_worker(*a, **k):
+                started.append(list(a) + list(k.values()))
+
+            create_client._model_callable = start_worker._model_callable = True
+            state = {"built": 0, "assigned": 0}
+
+            def hook(d, args, kwargs):
+                if d == A.name:
+                    state["built"] += 1
+                    return mach.new(A, [list(sched)])
+                if d == cwa[0].name:
+                    state["assigned"] += 1
+                    swap = lambda v: v if isinstance(v, int) and not isinstance(v, bool) else [dict(h) for h in hosts]  # noqa: E731
+                    return mach.call_function(cwa[0], [swap(v) for v in args], {k: swap(v) for k, v in kwargs.items()})
+                return NotImplemented
+
+            try:
+                mach = machine(drv, call_hook=hook, choose=lambda node: False)
+                actor = model(None, create_client=create_client, start_worker=start_worker, _label="driver actor")
+                dobj = mach.new(D, [actor, opaque("config")])
+                for k_, v_ in list(dobj.fields.items()):
+                    if v_ is None and k_ not in own:
+                        dobj.fields[k_] = opaque(f"driver.{k_}")  # (set by the preparation of the benchmark, which is not interpreted: a value without a representative)
+                mach.apply(mach.getattr(dobj, start.name), [], {})
+                if not state["built"] or not state["assigned"]:
+                    raise me.CannotEval(f"Driver.{start.name} does not construct {A.name}(...) / call {cwa[0].name}(...) by name")
+                ref = mach.new(A, [list(sched)])
+                M = mach.getattr(ref, builder.name) if builder_is_prop else mach.apply(mach.getattr(ref, builder.name), [], {})
+                if not (isinstance(M, (list, tuple)) and M and all(isinstance(r, (list, tuple)) for r in M)):
+                    raise me.CannotEval("the allocation matrix of the model schedule is not a non-empty sequence of rows")
+                n_rows, width = len(M), max(len(r) for r in M)
+                # -- the clients of the started workers, read through the row view's own reader
+                per_worker = []
+                for rec in started:
+                    views = [v for v in rec if is_a(v, CA)]
+                    if len(views) != 1:
+                        raise me.CannotEval(f"start_worker(...) is handed {len(views)} {CA.name} objects")
+                    ids = []
+                    for i in range(width):
+                        for e in mach._iter(mach.apply(mach.getattr(views[0], reader.name), [i], {}), reader):
+                            vals = list(e.astuple()) if isinstance(e, c01._Rec) else [v for k_, v in e.fields.items() if k_ != "_label"] if isinstance(e, model) and e.cls not in (JP, TA) \
+                                else list(e) if isinstance(e, (tuple, list)) else []
+                            got = [v for v in vals if isinstance(v, int) and not isinstance(v, bool)]
+                            if len(got) != 1:
+                                raise me.CannotEval(f"the row view returns `{e!r}`: not a (client id, entry) pair")
+                            if got[0] not in ids:
+                                ids.append(got[0])
+                    worker = [v for v in rec if any(v is c for c in created)]
+                    per_worker.append((ids, worker[0] if len(worker) == 1 else None))
+                # -- the walk through the steps
+                jcols = [[i for i, e in enumerate(r) if is_a(e, JP)] for r in M]
+                aligned = len({len(r) for r in M}) == 1 and all(c == jcols[0] for c in jcols) and jcols[0]
+                v0 = dobj.fields.get(counter) if counter is not None else None
+                fin = None
+                if pred is not None and aligned and isinstance(v0, int) and not isinstance(v0, bool):
+                    fin = []
+                    for j in range(1, len(jcols[0]) + 1):
+                        dobj.fields[counter] = v0 + j
+                        r_ = mach.getattr(dobj, pred.name) if is_prop(pred) else mach.apply(mach.getattr(dobj, pred.name), [], {})
+                        fin.append(mach.truth(r_, pred))
+                    dobj.fields[counter] = v0
+            except soft as x:
+                raise me.CannotEval(f"{name}: {type(x).__name__.strip('_')}: {x}")
+            except (AttributeError, TypeError) as x:  # the machine of rules.C01 is owned (and changed) elsewhere: an interface that moved is 'not available', not a crash
+                raise me.CannotEval(f"the abstract machine of rules.C01 is not usable as expected ({type(x).__name__}: {x})")
+            self.cases += 1
+            # -- steps
+            if pred is not None and not isinstance(f["steps"], _NotEvaluated):
+                if fin is None:
+                    f["steps"] = _NotEvaluated(f"{name}: " + ("the join points of the matrix are not aligned" if not aligned else f"the step counter `{counter}` has no integer value after start-up"))
+                elif fin != [False] * (len(fin) - 1) + [True]:
+                    first = fin.index(True) + 1 if True in fin else None
+                    fail("steps", f"{name}: every client walks through {len(fin)} join points (the initial one and one behind each of the {len(sched)} schedule element(s)); "
+                         + (f"`{pred.name}` already holds after join point {first} of {len(fin)}: what lies behind it is never run" if first is not None and first < len(fin)
+                            else f"`{pred.name}` does not hold after the last join point: the race never completes"))
+            # -- entries: located by value (an attribute holding a sequence of collections of the schedule's tasks)
+            if aligned and not isinstance(f["entries"], _NotEvaluated):
+                leaves = {id(lf) for el in sched for lf in mach._iter(el, None)}
+                want = [sorted({id(e.init_args.get(task_p)) for r in M for e in r[a_ + 1:b_] if is_a(e, TA)}) for a_, b_ in zip(jcols[0], jcols[0][1:])]
+                cands = [k_ for k_, v in dobj.fields.items() if isinstance(v, (list, tuple)) and v and all(isinstance(s_, (set, frozenset, list, tuple)) for s_ in v)
+                         and all(id(x) in leaves for s_ in v for x in s_)]
+                if len(cands) == 1:
+                    got = [sorted(id(x) for x in s_) for s_ in dobj.fields[cands[0]]]
+                    if got != want:
+                        label = {id(lf): lf.fields.get("_label") for el in sched for lf in mach._iter(el, None)}
+                        fail("entries", f"{name}: the driver keeps the per-step entries {[[label[i] for i in s_] for s_ in got]} in `{cands[0]}`, the steps between the join points of the "
+                                        f"matrix consist of {[[label.get(i, '?') for i in s_] for s_ in want]}")
+                elif want and (len(cands) > 1 or any(want)):
+                    f["entries"] = _NotEvaluated(f"{name}: the attribute in which the driver keeps its per-step entries (a sequence of task sets) is not recognised (candidates {sorted(cands)})")
+            # -- the clients of the workers
+            handed = [c for ids, _ in per_worker for c in ids]
+            if sorted(handed) != list(range(n_rows)):
+                lost, twice = sorted(set(range(n_rows)) - set(handed)), sorted({c for c in handed if handed.count(c) > 1})
+                fail("all_ids", f"{name}: the started workers simulate the clients {[ids for ids, _ in per_worker]} of 0..{n_rows - 1}"
+                     + (f": client(s) {lost} are handed to no worker" if lost else "") + (f"; client(s) {twice} more than once" if twice else ""))
+            bad = next((ids for ids, _ in per_worker if ids and sorted(ids) != list(range(min(ids), min(ids) + len(ids)))), None)
+            if bad is not None:
+                fail("contiguous", f"{name}: a worker simulates the clients {bad}, which is not a contiguous range")
+            cores, used = {}, {}
+            for h in hosts:
+                cores[h["host"]] = cores.get(h["host"], 0) + h["cores"]
+            for w in created:
+                on = [a_ for a_ in w.fields["args"] if isinstance(a_, str)]
+                if len(on) != 1:
+                    if not isinstance(f["per_core"], (str, _NotEvaluated)):
+                        f["per_core"] = _NotEvaluated(f"{name}: the host among the arguments of create_client(...) is not recognised ({on})")
+                    break
+                if on[0] not in cores:
+                    fail("per_core", f"{name}: a worker is created on `{on[0]}`, which is none of the load driver hosts")
+                used[on[0]] = used.get(on[0], 0) + 1
+            over = next((h for h in used if h in cores and used[h] > cores[h]), None)
+            if over is not None:
+                fail("per_core", f"{name}: {used[over]} workers are created on {over}, which has {cores[over]} core(s)")
+        return f
+
+
+_STEP_OBS = [
+    ("O2.9", "the race is complete exactly after the last join point of the rows (the completion predicate over the step counter, walked through every join point)", ("steps",), "steps"),
+    ("O2.9", "the driver keeps one per-step entry per step: the tasks between two consecutive join points of the matrix", ("entries",), "entries"),
+]
+_HANDOUT_OBS = [
+    ("O2.10", "every client id 0..n-1 is handed to exactly one started worker", ("all_ids",), "all-ids"),
+    ("O2.10", "the clients of a worker are a contiguous range of ids", ("contiguous",), "contiguous"),
+    ("O2.10", "workers are created on the load driver hosts, at most one per core", ("per_core",), "per-core"),
+]
+
+
+def start_up_on_values(chk, drv, table):
+    """O2.9 / O2.10: facts of the end-to-end evaluation of the benchmark start-up (_StartUpSim), one obligation per fact; a fact that cannot be evaluated is 'not recognised'"""
+    sim = getattr(drv, "_c02_start_up_sim", None)
+    if sim is None:
+        sim = drv._c02_start_up_sim = _StartUpSim(drv)
+    D = drv.cls("Driver")
+    node = drv.methods(D).get("start_benchmark") or D
+    for rid, name, facts, key in table:
+        v, txt = sim.verdict(facts)
+        if v is None:
+            chk.unknown(rid, f"{name}: {txt}", node)
+        else:
+            chk.ob(rid, name, v, node, txt, key=f"{_D}:Driver.start_benchmark:on-values:{key}")
+
+
 def run(chk):
     repo = chk.repo
     drv, trk = repo.module(_D), repo.module(_T)
@@ -2385,7 +2699,11 @@ def run(chk):
         "the same amount, round-robin per core; worker ids are list positions (start_benchmark analysed together with the helper methods it delegates to: arguments followed through the "
         "call sites, returned values back to the caller; the id is a counter advanced with the append, an enumerate index or the length of the list); a parallel element's client count is computed on demand from its current sub-tasks (evaluated). "
         "Roles that are not located (or have a shape that is not enumerated) are decided end to end: the worker assignment function and the allocator (matrix builder, per-step "
-        "entries, constructors of the cell classes) are evaluated for representative hosts / schedules and the same facts are read off the results."
+        "entries, constructors of the cell classes) are evaluated for representative hosts / schedules and the same facts are read off the results. "
+        "The start-up of the race is decided end to end as well (O2.9 / O2.10): Driver.start_benchmark, with whatever it delegates to, is interpreted on a model driver (abstract machine "
+        "of rules.C01, here with closures for nested functions) for representative schedules - also with elements left empty - and host lists - also with one host listed more than "
+        "once -; read off the model: the completion predicate walked through every join point of the rows, the per-step entries against the tasks between the join points, the client "
+        "ids of the row views the workers are started with (0..n-1 each once, contiguous per worker) and the hosts the workers are created on (at most one per core)."
     )
     chk.not_decided = "rectangularity of the matrix for all shapes (None-padding arithmetic), the per-host ceil split summing to the total for all inputs (guarded by a run-time assert), balance across hosts."
     step_entry_agreement(chk, drv, "O2.1")
@@ -2431,6 +2749,21 @@ def run(chk):
         worker_ids_are_positions(chk, "O2.5", drv)
     except AnchorMissing as x:
         chk.unknown("O2.5", f"not recognised: {x}", drv.cls("Driver"))
+
+    # ---- O2.9 / O2.10 the start-up of the race on values ------------------------------------------------------------------------------------------------
+    chk.rule("O2.9", "the race walks through exactly the steps of its matrix: Driver.start_benchmark (with whatever it delegates to) interpreted on a model driver for representative "
+             "schedules - also with elements left empty (first, in the middle, last, two in a row) and capped / over-committed parallel elements -, then the step counter walked "
+             "through the join points every client reports: the driver's completion predicate holds after the LAST join point and after none before it, and the per-step entries "
+             "the driver keeps are, step by step, the tasks between two consecutive join points (one entry per step)", 2,
+             "a schedule with an element left empty (by filters) followed by another element: a step count that differs from the number of join points minus one declares the race "
+             "complete while schedule elements are still to be run (their tasks get none of their clients), or never; progress entries shifted against the steps")
+    start_up_on_values(chk, drv, _STEP_OBS)
+    chk.rule("O2.10", "the clients 0..n-1 reach the workers: Driver.start_benchmark interpreted on a model driver for representative lists of load driver hosts - one host, uneven "
+             "cores, more cores / more hosts than clients, and ONE HOST LISTED MORE THAN ONCE -: the client ids of the row views the workers are started with are 0..n-1, each "
+             "exactly once, a contiguous range per worker; every worker is created on one of the hosts and no host gets more workers than it has cores", 3,
+             "a list of load driver hosts that names one machine twice (or any list, for an edit that skips / regroups / filters the worker assignments between "
+             "calculate_worker_assignments and the start of the workers): the ids of a whole host entry are handed to no worker - every task runs with fewer clients than it requests")
+    start_up_on_values(chk, drv, _HANDOUT_OBS)
 
     # ---- O2.6 parallel client count --------------------------------------------------------------------------------------------------------------------
     chk.rule("O2.6", "a parallel element's client count is the explicit value when not None, else the sum over its CURRENT sub-tasks (computed on demand, not cached at construction)", 2,
@@ -2722,6 +3055,7 @@ _SW_HELPER_APPENDS = _SW_HELPER.replace("        return worker\n", "        self
 _SW_LOOP_CALL = "                    client_allocations, worker_client_contexts = self._allocations_of(worker_id, clients, create_api_keys)\n"
 _SW_LOOP_HELPER = ("    def _allocations_of(self, worker, client_ids, create_api_keys):\n"
                    + _dedent(_SW_SETUP + _SW_LOOP_HEAD + _SW_LOOP_BODY, 12).replace("for client_id in clients:", "for client_id in client_ids:").replace("worker_id", "worker")
+                   .replace("parent_worker=", "parent_worker_id=")  # (the keyword of ClientContext keeps its name: only the local is renamed)
                    + "        return client_allocations, worker_client_contexts\n\n")
 _SW_BODY_CALL = "                        self._register_client(client_allocations, worker_client_contexts, worker_id, client_id, create_api_keys)\n"
 _SW_BODY_HELPER = ("    def _register_client(self, allocations_of_worker, contexts_of_worker, worker, client, with_api_key):\n"
@@ -2819,4 +3153,45 @@ VARIANTS += [
     [V("h4 break: per-host helper starts the worker id at 0 for every host", "break", _D, _SW_WHOLE,
        "        for assignment in worker_assignments:\n            self._start_workers_on(assignment, create_api_keys)\n\n", "O2.5"),
      V("", "break", _D, _SW_NEXT, _SW_PER_HOST_HELPER + _SW_NEXT)],
+]
+
+# ---- strengthening round 5 (seeds C02-m14, C02-m15): the start-up of the race decided on values (O2.9 steps walked, O2.10 clients handed to the workers) -------------------
+_STEPS_OLD = "        self.number_of_steps = len(allocator.join_points) - 1\n        self.tasks_per_join_point = allocator.tasks_per_joinpoint\n"
+_FIN_OLD = "        return self.current_step == self.number_of_steps\n"
+_WL_OLD = "        worker_id = 0\n        for assignment in worker_assignments:\n            host = assignment[\"host\"]\n            for clients in assignment[\"workers\"]:\n"
+
+VARIANTS += [
+    V("s5 break (seed C02-m14): the number of steps counts the non-empty per-step entries only", "break", _D, _STEPS_OLD,
+      "        self.tasks_per_join_point = allocator.tasks_per_joinpoint\n"
+      "        self.number_of_steps = len([tasks for tasks in self.tasks_per_join_point if len(tasks) > 0])\n", "O2.9"),
+    V("s5 break: the number of steps counts the distinct task sets between the join points", "break", _D, _STEPS_OLD,
+      "        self.tasks_per_join_point = allocator.tasks_per_joinpoint\n"
+      "        self.number_of_steps = len({frozenset(tasks) for tasks in self.tasks_per_join_point})\n", "O2.9"),
+    V("s5 break: the number of steps includes the initial join point (the race never completes)", "break", _D, _STEPS_OLD,
+      "        self.number_of_steps = len(allocator.join_points)\n        self.tasks_per_join_point = allocator.tasks_per_joinpoint\n", "O2.9"),
+    V("s5 break: completion predicate holds one step early", "break", _D, _FIN_OLD, "        return self.current_step >= self.number_of_steps - 1\n", "O2.9"),
+    V("s5 break: the driver drops the per-step entries of empty elements (entries shifted against the steps)", "break", _D, _STEPS_OLD,
+      "        self.number_of_steps = len(allocator.join_points) - 1\n        self.tasks_per_join_point = [tasks for tasks in allocator.tasks_per_joinpoint if tasks]\n", "O2.9"),
+    V("s5 keep: the number of steps is the number of per-step entries (one per join point behind the initial one)", "keep", _D, _STEPS_OLD,
+      "        self.tasks_per_join_point = allocator.tasks_per_joinpoint\n        self.number_of_steps = len(self.tasks_per_join_point)\n"),
+    V("s5 keep: the number of steps as the number of join points behind the initial one", "keep", _D, _STEPS_OLD,
+      "        closing_join_points = allocator.join_points[1:]\n        self.number_of_steps = len(closing_join_points)\n        self.tasks_per_join_point = allocator.tasks_per_joinpoint\n"),
+    V("s5 keep: completion predicate spelled with >=", "keep", _D, _FIN_OLD, "        return self.current_step >= self.number_of_steps\n"),
+    V("s5 break (seed C02-m15): worker assignments regrouped by host name before the workers are started", "break", _D, _WL_OLD,
+      "        workers_per_host = {assignment[\"host\"]: assignment[\"workers\"] for assignment in worker_assignments}\n        worker_id = 0\n"
+      "        for host, workers in workers_per_host.items():\n            for clients in workers:\n", "O2.10"),
+    V("s5 break: one worker assignment per distinct host", "break", _D, _WL_OLD,
+      "        worker_id = 0\n        for assignment in {a[\"host\"]: a for a in worker_assignments}.values():\n            host = assignment[\"host\"]\n            for clients in assignment[\"workers\"]:\n", "O2.10"),
+    V("s5 break: workers with a single client are not started", "break", _D, "                if len(clients) > 0:\n", "                if len(clients) > 1:\n", "O2.10"),
+    V("s5 break: only the workers of the first load driver host are started", "break", _D, _WL_OLD,
+      "        worker_id = 0\n        for assignment in worker_assignments[:1]:\n            host = assignment[\"host\"]\n            for clients in assignment[\"workers\"]:\n", "O2.10"),
+    V("s5 break: every worker is created on the first load driver host (more workers than cores there)", "break", _D, "            host = assignment[\"host\"]\n",
+      "            host = worker_assignments[0][\"host\"]\n", "O2.10"),
+    V("s5 break: the last client of every worker is left out", "break", _D, "                    for client_id in clients:\n", "                    for client_id in clients[:-1] or clients[:1]:\n", "O2.10"),
+    V("s5 keep: worker assignments regrouped as a list of (host, workers) pairs", "keep", _D, _WL_OLD,
+      "        workers_per_host = [(assignment[\"host\"], assignment[\"workers\"]) for assignment in worker_assignments]\n        worker_id = 0\n"
+      "        for host, workers in workers_per_host:\n            for clients in workers:\n"),
+    V("s5 keep: worker assignments regrouped in a dict keyed by the position in the host list", "keep", _D, _WL_OLD,
+      "        workers_per_entry = {position: (assignment[\"host\"], assignment[\"workers\"]) for position, assignment in enumerate(worker_assignments)}\n        worker_id = 0\n"
+      "        for host, workers in workers_per_entry.values():\n            for clients in workers:\n"),
 ]
